@@ -627,6 +627,20 @@ class Sim:
     # ------------------------------------------------------------------ invariants
     def check_values(self, inv_out='I-08-outputs', inv_in='I-04-inputs'):
         """After a clean run: outputs and inputs against the reference."""
+        if any(s_['nl'] == 'broyden' for s_ in self.world['solvers'].values()):
+            # BroydenSolver over a whole model carries the independent variables in its state vector.  Their
+            # rows of the inverse-Jacobian estimate are zero only up to the round-off of the LU inverse; during a
+            # divergent excursion (residual 1e12) that round-off times the residual moved an automatic source
+            # by 1.6e-4 (observed).  None of the properties states that a solver leaves independents alone, and
+            # everything else is then the converged model of *other* inputs: counted, not judged.
+            for key, absname in self.vec_names():
+                if key in self.ref.indep:
+                    got = np.array(self.p.get_val(absname)).ravel()
+                    if got.shape == self.ref.indep[key].shape and np.all(np.isfinite(got)) and \
+                            relerr(got, self.ref.indep[key]) > 1e-13:
+                        self.void = True
+                        self.probes.inc('broyden_moved_an_independent_variable_void')
+                        return True
         y = self.ref.solve()
         if self.ref.quads and self.world['cycle'] is not None:
             # a cyclic quadratic world has several roots: anchor the reference at the root nearest to
